@@ -6,6 +6,8 @@ import os
 # rolling back a savepoint inside which something was flushed was the open finding F-SP (fixed in /repo 16dd45a);
 # VERIF_SP_STRICT=1 restores the old generator rule (such savepoints are released instead)
 SP_ANY = os.environ.get('VERIF_SP_STRICT') != '1'
+# row switches were the open finding F-ROWSWITCH (fixed in /repo); VERIF_ROWSWITCH_STRICT=1 keeps them out again
+ROWSWITCH_STRICT = os.environ.get('VERIF_ROWSWITCH_STRICT') == '1'
 
 
 def entity_info(spec):
@@ -141,9 +143,8 @@ def random_program(rng, spec, nsteps, weights=None, nkeys=3, nvals=4, allow_clas
     sp_stack = []
     sp_exists = [{}]
     sp_flushed = [False]
-    deleted_unflushed = set()   # root keys deleted since the last flush: re-adding them now would be a
-                                # "row switch" (delete + insert of one key in one flush), which is the open
-                                # finding F-ROWSWITCH; the random stream avoids it (a pinned corpus case keeps it)
+    deleted_unflushed = set()   # root keys deleted since the last flush: re-adding them now is a "row switch"
+                                # (delete + insert of one key in one flush, turned into an UPDATE by SQLAlchemy)
 
     def rand_pk(cname):
         return [rng.randrange(1, nkeys + 1) for _ in info[cname]['pk']]
@@ -175,7 +176,9 @@ def random_program(rng, spec, nsteps, weights=None, nkeys=3, nvals=4, allow_clas
             if prev is not None and prev != cname and ((root(cname), tuple(pk)) in deleted_uncommitted or not allow_class_switch):
                 cname = prev
             class_of[(root(cname), tuple(pk))] = cname
-            if (root(cname), tuple(pk)) in deleted_unflushed:
+            if (root(cname), tuple(pk)) in deleted_unflushed and (ROWSWITCH_STRICT or rng.random() < 0.5):
+                # half of the re-adds of a key deleted since the last flush get a flush in between; the other half
+                # are SQLAlchemy "row switches" (DELETE + INSERT of one key in one flush become an UPDATE)
                 prog.append(['flush'])
                 sp_flushed[0] = True
                 deleted_unflushed.clear()
